@@ -7,6 +7,7 @@ N = @@N@@          # number of body lines (shard constant)
 K = @@K@@          # max indent length
 L = @@L@@          # max text length per line
 LEADERLESS = @@LEADERLESS@@
+NOSPACE = @@NOSPACE@@        # True: body lines are written '#' + text WITHOUT the optional space (text not starting with ' ', '#', '[' or ']'); "D22": the first text starts with '#', '[' or ']' (known finding)
 FIRSTLINE = @@FIRSTLINE@@    # the first text stands on the opening line: '#[[[ text'
 NCP = @@NCP@@      # N * L
 PADIND = @@PADIND@@  # concrete prefix of the block indentation (deeply indented blocks), followed by the symbolic indent characters
@@ -46,6 +47,8 @@ def check(cps: $$CPS$$, m: $$MT$$, ind: $$IT$$, km: int) -> bool:
     """
     pre: _pre(cps, m, ind, km)
     pre: (not FIRSTLINE) or m[0] >= 1
+    pre: (NOSPACE is not True) or all(m[i] == 0 or (cps[i * L] != 32 and cps[i * L] != 35 and cps[i * L] != 91 and cps[i * L] != 93) for i in range(N))
+    pre: (NOSPACE != "D22") or (m[0] >= 1 and (cps[0] == 35 or cps[0] == 91 or cps[0] == 93) and all(m[i] == 0 or cps[i * L] != 32 for i in range(N)))
     pre: (not LEADERLESS) or (km == 0 and all(m[i] >= 1 and _letter(cps[i * L]) for i in range(N)))
     post: _
     """
@@ -62,6 +65,8 @@ def check(cps: $$CPS$$, m: $$MT$$, ind: $$IT$$, km: int) -> bool:
     elif FIRSTLINE:
         lines = hc.canon_lines(indent, texts[1:])
         lines[0] = "#[[[ " + texts[0]
+    elif NOSPACE:
+        lines = ["#[[["] + [indent + "#" + t for t in texts] + [indent + "#]]"]
     else:
         lines = hc.canon_lines(indent, texts)
     got = DocumentationAggregator.clean_doc_lines(lines)
